@@ -58,7 +58,7 @@ shape("AnalyticPool", {
 }, cls="AnalyticProposal")
 
 contract(
-    PA, "AnalyticProposal.populate", props=["C09"],
+    PA, "AnalyticProposal.populate", props=["C09", "C01"],
     self_shape="AnalyticPool", params={"N": "Opt(Int)"},
     requires=["implies(N is not None, N >= 0)", "self.poolsize >= 0"],
     modifies=["self.samples", "self.indices", "self.populated"],
@@ -81,7 +81,7 @@ DRAW_ENS = [
     "self.populated == (len(self.indices) > 0)",
 ]
 contract(
-    PA, "AnalyticProposal.draw", props=["C09"], self_shape="AnalyticPool",
+    PA, "AnalyticProposal.draw", props=["C09", "C01"], self_shape="AnalyticPool",
     params={"old_sample": LP_ROW, "**kwargs": {}},
     requires=pool_inv() + ["self.poolsize >= 1",
                            "implies(self.populated, "
@@ -108,10 +108,10 @@ shape("RejectionPool", {
         "(the model's own new_point density): some real per point",
         returns="Seq(Real)", ensures=["len(result) == len(x)"]),
 })
-contract(PR, "RejectionProposal.draw_proposal", props=["C09"], inline=True,
+contract(PR, "RejectionProposal.draw_proposal", props=["C09", "C01"], inline=True,
          verify=False, self_shape="RejectionPool")
 contract(
-    PR, "RejectionProposal.compute_weights", props=["C09"],
+    PR, "RejectionProposal.compute_weights", props=["C09", "C01"],
     self_shape="RejectionPool",
     params={"x": LP_ARR, "return_log_prior": ("const", True)},
     returns="Tuple(Seq(Real),Seq(Real))",
@@ -119,7 +119,7 @@ contract(
              "forall(i, 0, len(x), result[1][i] == LPr(x[i]['x']))"],
 )
 contract(
-    PR, "RejectionProposal.populate", props=["C09"],
+    PR, "RejectionProposal.populate", props=["C09", "C01"],
     self_shape="RejectionPool", params={"N": "Opt(Int)"},
     requires=["implies(N is not None, N >= 1)", "self.poolsize >= 1"],
     modifies=["self.samples", "self.indices", "self.populated",
@@ -156,7 +156,7 @@ shape("FlowPool", {
                               "len(self.indices) == N", "self.populated"]),
 })
 contract(
-    PF, "FlowProposal.draw", props=["C09"], self_shape="FlowPool",
+    PF, "FlowProposal.draw", props=["C09", "C01"], self_shape="FlowPool",
     params={"worst_point": LP_ROW},
     requires=pool_inv() + ["self.poolsize >= 1",
                            "implies(self.populated, "
@@ -189,7 +189,7 @@ LPF_ = "nessai/livepoint.py"
 ZT = "Seq(Sort(Zs))"
 PT = "Seq(Sort(P))"
 # rows as backward_pass returns them: abstract points (sort P)
-contract(LPF_, "empty_structured_array", variant_name="c09", props=["C09"],
+contract(LPF_, "empty_structured_array", variant_name="c09", props=["C09", "C01"],
          trusted=True, verify=False,
          trusted_reason="allocation of n rows of the given dtype (as "
          "abstract points; field defaults: C18's concern)",
@@ -282,7 +282,7 @@ POP_MOD = ["self.r", "self.alt_dist", "self.indices", "self.x",
            "self.flow.model.training"]
 contract(
     PF, "FlowProposal.populate", variant_name="c09",
-    props=["C09"], self_shape="FlowPopulate", log_domain=False,
+    props=["C09", "C01"], self_shape="FlowPopulate", log_domain=False,
     params={"worst_point": LP_ROW, "N": "Int", "plot": "Bool",
             "r": "Opt(Real)", "max_samples": "Int"},
     requires=["N >= 1", "self.drawsize >= 1",
@@ -322,7 +322,7 @@ contract(
 
 contract(
     PF, "FlowProposal.populate", variant_name="c09-acc",
-    props=["C09"], self_shape="FlowPopulate", log_domain=False,
+    props=["C09", "C01"], self_shape="FlowPopulate", log_domain=False,
     params={"worst_point": LP_ROW, "N": "Int", "plot": "Bool",
             "r": "Opt(Real)", "max_samples": "Int"},
     requires=["N >= 1", "self.drawsize >= 1", "self.accumulate_weights",
